@@ -115,6 +115,8 @@ type jobState struct {
 	logIdx   int
 	byTok    map[string][]*fakecql.Attempt
 	prepID   map[string][]byte
+	late     map[string][]byte // prep_late_* statements per client connection
+	nlate    int
 	prepared bool
 	thor     bool
 	nstream  int
@@ -259,6 +261,55 @@ func (js *jobState) ensurePrepared(c *cqlclient.Client) error {
 	}
 	js.prepared = true
 	return nil
+}
+
+// ensureLate sets up a statement of class prep_late_* for one client connection: a statement the proxy has never seen
+// is prepared on the nodes directly, EXECUTEd once through the proxy on that connection (the proxy cannot know what it
+// is), and only then PREPAREd through the proxy on the same connection.
+func (js *jobState) ensureLate(c *cqlclient.Client, conn, sel string) ([]byte, error) {
+	key := conn + "|" + sel + "|" + fmt.Sprint(c.ID)
+	if id := js.late[key]; id != nil {
+		return id, nil
+	}
+	js.nlate++
+	text := fmt.Sprintf("SELECT v FROM ks.late%d_%d WHERE k = ?", js.j.Env.ID, js.nlate)
+	if sel == "prep_late_write" {
+		text = fmt.Sprintf("INSERT INTO ks.late%d_%d (k, v) VALUES (?, ?)", js.j.Env.ID, js.nlate)
+	}
+	var id []byte
+	for i, ip := range js.e.IPs {
+		d, err := cqlclient.Dial(js.e.C.ContactPoint(ip), 9100+i, js.e.T)
+		if err != nil {
+			return nil, err
+		}
+		d.Quiet = true
+		if err := d.Startup(primitive.ProtocolVersion4, ""); err != nil {
+			d.Close()
+			return nil, err
+		}
+		id, err = js.prepareVia(d, text)
+		d.Close()
+		if err != nil {
+			return nil, err
+		}
+	}
+	js.nstream++
+	ex := &message.Execute{QueryId: id, Options: &message.QueryOptions{Consistency: primitive.ConsistencyLevelOne}}
+	if c.Version.SupportsResultMetadataId() {
+		ex.ResultMetadataId = make([]byte, 16)
+	}
+	if _, err := c.Roundtrip(frame.NewFrame(c.Version, int16(21000+js.nstream%1000), ex), "", "setup", 5*time.Second); err != nil {
+		return nil, err
+	}
+	id2, err := js.prepareVia(c, text)
+	if err != nil {
+		return nil, err
+	}
+	if js.late == nil {
+		js.late = map[string][]byte{}
+	}
+	js.late[key] = id2
+	return id2, nil
 }
 
 func (js *jobState) attempts(tok string) []*fakecql.Attempt {
@@ -443,9 +494,20 @@ func (js *jobState) runOnce(x *exchange, retry int) *obs {
 			return fail("generr", "setup prepare: "+err.Error())
 		}
 	}
+	prepID := js.prepID
+	if strings.HasPrefix(x.Sel, "prep_late_") {
+		id, err := js.ensureLate(c, x.Ver+"/"+x.Comp, x.Sel)
+		if err != nil {
+			return fail("generr", "late prepare: "+err.Error())
+		}
+		prepID = map[string][]byte{x.Sel: id}
+		for k, v := range js.prepID {
+			prepID[k] = v
+		}
+	}
 	tok := fmt.Sprintf("tok%dx%dr%d;", js.j.Env.ID, x.I, retry)
 	o.Tok = tok
-	g := &gen{r: rand.New(rand.NewSource(hutil.Seed()*1000003 + x.Salt)), ver: versions[x.Ver], thor: js.thor, prepID: js.prepID}
+	g := &gen{r: rand.New(rand.NewSource(hutil.Seed()*1000003 + x.Salt)), ver: versions[x.Ver], thor: js.thor, prepID: prepID}
 	stream := int16(g.r.Intn(16000))
 	frm, err := g.requestFrame(x, tok, stream)
 	if err != nil {
